@@ -86,6 +86,188 @@ def _features(f):
     return [len(f["body"]["blocks"]), sorted(ext), loc]
 
 
+def _body_hash(f):
+    import hashlib
+
+    def strip(o):
+        if isinstance(o, dict):
+            return {k: strip(v) for k, v in o.items() if k not in ("s", "fn_span", "span")}
+        if isinstance(o, list):
+            return [strip(v) for v in o]
+        return o
+    b = f["body"]
+    txt = json.dumps([strip(b["blocks"]), [l["ty"] for l in b["locals"]]], sort_keys=True)
+    txt = re.sub(r"\{closure@[^}]*\}", "{closure}", txt)
+    return hashlib.md5(txt.encode()).hexdigest()[:16]
+
+
+def changed_fns(js):
+    """keys of functions of crate `raft` whose MIR differs from the reference tree's (or that are new): the only
+    functions the shape normalisations below touch -- on the reference tree itself nothing is rewritten"""
+    ref = _ref_table()
+    if ref is None:
+        return set()
+    out = set()
+    for j in js:
+        if j["crate"] != "raft":
+            continue
+        for k, f in j["fns"].items():
+            if f["kind"] == "Closure":
+                continue
+            r = ref["fns"].get(_short(k))
+            if r is None or len(r) < 5 or r[4] != _body_hash(f):
+                out.add(k)
+    return out
+
+
+def _succ(t):
+    out = []
+    for key in ("target", "otherwise", "unwind"):
+        if isinstance(t.get(key), int):
+            out.append(t[key])
+    for v, tg in t.get("targets") or []:
+        out.append(tg)
+    return out
+
+
+def _reads_local(o, l):
+    if isinstance(o, dict):
+        if "l" in o and "p" in o and isinstance(o.get("p"), list) and o.get("l") == l:
+            return True
+        return any(_reads_local(v, l) for v in o.values())
+    if isinstance(o, list):
+        return any(_reads_local(v, l) for v in o)
+    return False
+
+
+def _all_defs(B, l):
+    out = []
+    for b in B:
+        for st in b["stmts"]:
+            if st["k"] == "assign" and st["place"]["l"] == l and not st["place"]["p"]:
+                out.append(st["rv"])
+        t = b["term"]
+        if t["k"] == "call" and t.get("dest") and t["dest"]["l"] == l:
+            out.append(None)
+    return out
+
+
+def _selector_rv(B, rv, depth=0):
+    """a value that *selects*: a constant, an enum/Option/Result variant built in place, or a copy / borrow of a
+    local all of whose definitions are such values -- not a computed quantity"""
+    if rv is None or depth > 3:
+        return False
+    if "use" in rv:
+        u = rv["use"]
+        if "const" in u:
+            return True
+        pl = u.get("move") or u.get("copy")
+        if pl is not None and all(p == "*" for p in pl["p"]):
+            ds = _all_defs(B, pl["l"])
+            return bool(ds) and all(_selector_rv(B, d, depth + 1) for d in ds)
+        return False
+    if "ref" in rv:
+        pl = rv["ref"]
+        if all(p == "*" for p in pl["p"]):
+            ds = _all_defs(B, pl["l"])
+            return bool(ds) and all(_selector_rv(B, d, depth + 1) for d in ds)
+        return False
+    if rv.get("agg") == "adt":
+        return rv.get("adt") in ("core::option::Option", "core::result::Result") or not rv.get("ops")
+    return False
+
+
+def _selector_def(B, preds, p, L, ndefs):
+    st = [x for x in B[p]["stmts"] if x["k"] == "assign"]
+    if not st:
+        return False
+    return _selector_rv(B, st[-1]["rv"])
+
+
+def split_selector_joins(f, rounds=6, max_stmts=16, max_new=200):
+    """Tail duplication of selector joins (the inverse of hoisting a call out of an if-chain):
+
+        let t = if a { X } else if b { Y } else { Z };  g(t)     ==>     if a { g(X) } else if b { g(Y) } else { g(Z) }
+
+    A join block J all of whose predecessors reach it by `goto` right after assigning one and the same local L
+    (which has no other definition: a pure phi), and which reads L, is copied once per predecessor. Semantics are
+    unchanged; every copy sees a single reaching definition of L, so the rules read the arms as they were written
+    before the value was hoisted. Returns the number of copies made."""
+    body = f["body"]
+    B = body["blocks"]
+    made = 0
+    for _ in range(rounds):
+        preds = {}
+        for bi, b in enumerate(B):
+            t = b["term"]
+            for tg in _succ(t):
+                preds.setdefault(tg, []).append((bi, t["k"]))
+        ndefs = {}
+        for b in B:
+            for st in b["stmts"]:
+                if st["k"] == "assign":
+                    ndefs[st["place"]["l"]] = ndefs.get(st["place"]["l"], 0) + 1
+            t = b["term"]
+            if t["k"] == "call" and t.get("dest"):
+                ndefs[t["dest"]["l"]] = ndefs.get(t["dest"]["l"], 0) + 1
+        todo = None
+        for J, ps in sorted(preds.items()):
+            if len(ps) < 2 or any(k != "goto" for _, k in ps) or len({p for p, _ in ps}) != len(ps):
+                continue
+            jb = B[J]
+            if jb.get("cleanup") or len(jb["stmts"]) > max_stmts:
+                continue
+            ls = set()
+            for p, _ in ps:
+                st = [x for x in B[p]["stmts"] if x["k"] == "assign"]
+                if st:
+                    if st[-1]["place"]["p"]:
+                        ls = None
+                        break
+                    ls.add(st[-1]["place"]["l"])
+                    continue
+                # no assignment in the block: it may be the return target of the call that defines the local
+                qs = preds.get(p, [])
+                if len(qs) == 1 and qs[0][1] == "call" and B[qs[0][0]]["term"].get("target") == p and B[qs[0][0]]["term"].get("dest") and not B[qs[0][0]]["term"]["dest"]["p"]:
+                    ls.add(B[qs[0][0]]["term"]["dest"]["l"])
+                    continue
+                ls = None
+                break
+            if not ls or len(ls) != 1:
+                continue
+            L = next(iter(ls))
+            if not all(_selector_def(B, preds, p, L, ndefs) for p, _ in ps):
+                continue
+            if body["locals"][L]["ty"] == "()" or ndefs.get(L, 0) != len(ps) or L <= body["arg_count"] and L != 0:
+                continue
+            if not (_reads_local(jb["stmts"], L) or _reads_local(jb["term"], L)) and not (L == 0 and jb["term"]["k"] == "return"):
+                continue
+            # not a loop header
+            seen, work = set(), list(_succ(jb["term"]))
+            loop = False
+            while work:
+                x = work.pop()
+                if x == J:
+                    loop = True
+                    break
+                if x in seen:
+                    continue
+                seen.add(x)
+                work += _succ(B[x]["term"])
+            if loop:
+                continue
+            todo = (J, [p for p, _ in ps])
+            break
+        if todo is None or made + len(todo[1]) > max_new:
+            break
+        J, ps = todo
+        for p in ps[1:]:
+            B.append(copy.deepcopy(B[J]))
+            B[p]["term"]["target"] = len(B) - 1
+            made += 1
+    return made
+
+
 def fn_renames(js):
     """{current short key: reference short key} for private functions of crate `raft` that were merely renamed:
     the reference function vanished, and exactly one new function of the same impl/module has its signature
@@ -114,6 +296,16 @@ def fn_renames(js):
         if len(cands) > 1:
             ft = _features(f)
             cands = [o for o in cands if len(vanished[o]) > 3 and vanished[o][3] == ft]
+        if not cands:
+            # same receiver and parameters, another return type, and a body that still does what the vanished one
+            # did (most of its outside calls): the function that took the role over (`-> Option<Message>` for the
+            # caller to send became `-> ()` sending it itself)
+            ft = _features(f)
+            for o, v in vanished.items():
+                if o.rsplit("::", 1)[0] == par and v[0] == sig[0] and v[1] == sig[1] and tuple(v[2][1:]) == sig[2][1:] and len(v) > 3 and v[3][1]:
+                    a, b = set(v[3][1]), set(ft[1])
+                    if len(a & b) >= 0.8 * len(a) and len(a & b) >= 3:
+                        cands.append(o)
         if len(cands) == 1:
             m[s] = cands[0]
     # injective only
@@ -286,7 +478,23 @@ def inline_new_helpers(js):
             progressed = True
         if not progressed:
             break
+    # a helper that is also passed around as a value (`iter().any(is_conf_change_entry)`) stays a unit of analysis
+    as_value = set()
+
+    def walk(o, in_func=False):
+        if isinstance(o, dict):
+            if not in_func and "fn" in o and isinstance(o["fn"], dict) and o["fn"].get("local") and "path" in o["fn"]:
+                as_value.add(o["fn"]["path"])
+            for k, v in o.items():
+                walk(v, k == "func")
+        elif isinstance(o, list):
+            for v in o:
+                walk(v, False)
+    for k, f in fns.items():
+        walk(f["body"]["blocks"])
     for h in done:
+        if h in as_value:
+            continue
         # closures defined inside the helper keep their own bodies; the helper itself is no longer a unit of analysis
         owner[h]["fns"].pop(h, None)
         fns.pop(h, None)
@@ -303,6 +511,6 @@ def write_ref_table(js, path=None):
             if f["kind"] == "Closure":
                 continue
             s = _sig(f)
-            tab[_short(k)] = [s[0], s[1], list(s[2]), _features(f)]
+            tab[_short(k)] = [s[0], s[1], list(s[2]), _features(f), _body_hash(f)]
     json.dump({"fns": tab}, open(path, "w"), indent=0, sort_keys=True)
     return len(tab)
